@@ -927,6 +927,9 @@ def check_c33(A: Analysis, col: Collector):
     level_note="Trusted: FileSet.copy honours mode and collation.",
 )
 def check_c34(A: Analysis, col: Collector):
+    from .runfn import staging_loop_rule
+
+    staging_loop_rule(A, col, "C34.stage")
     ji = A.cls("pydra.engine.job.Job").find_method("inputs")
     col.scope(ji.qualname)
     cs = [c for c in A.calls(ji) if any(q.endswith("copy_nested_files") for q in A.callee_names(c, ji))]
